@@ -609,7 +609,9 @@ def diff_calls(rng, n):
             p2, out = uberjob.run(plan, registry=reg, output=node, dry_run=True, progress=None)
             new = [x for x in p2.graph.nodes() if type(x) is Call and x not in before]
             impl = _summ(new, reg.mapping[node].stack_frame)
-            line = f"tb calls store {int(is_source)} {int(stale)}"
+            # whether a write is planned is C05/C09's business: the model is told what the real plan decided
+            stale_obs = any(c.fn is Store.write for c in new) if not is_source else stale
+            line = f"tb calls store {int(is_source)} {int(stale_obs)}"
         # the model lists calls in creation order; only the multiset is compared
         reqs.append(("calls", line, impl, {"op": op}))
     return reqs
@@ -688,7 +690,7 @@ def explore(ctx):
            "rule": "every kind of symbolic call x thread stack depth 1..8 (+ IPython frames, + main-thread stacks), each failing in its phase; "
                    "get_stack_frame(k) for k in 0..depth+2; random chains for render; random structured arguments for the created calls",
            "samples": [cases[0], cases[len(cases) // 2]]}
-    want_classes = 3 * len(SCENARIOS)
+    want_classes = (3 if max_depth >= 1 else 2) * len(SCENARIOS)      # no stack is shallower than a limit of one frame
     if not violations and len(classes) < want_classes:
         disagreements.append({"layer": "generator-floor", "classes": len(classes), "wanted": want_classes})
     return {"violations": violations, "disagreements": disagreements, "coverage": cov}
